@@ -126,7 +126,7 @@ func VerifC02AnyM(shape, strLen int, allowUTF8, allowDup, deterministic, nondetO
 }
 
 // zzNamesSorted reports whether, in every object of the valid compact text b, member names
-// appear in ascending order of their quoted spelling (what slices.Sort of the Go strings gives
+// appear in non-descending order of their unescaped spelling (what slices.Sort of the Go strings gives
 // for names without escapes; harness strings are short raw bytes).
 func zzNamesSorted(b []byte) bool {
 	// scan objects with an explicit stack of "previous name" per open object
@@ -162,7 +162,10 @@ func zzNamesSorted(b []byte) bool {
 			if expectName {
 				name := zzspec.Unescape(b[i:e])
 				top := len(prev) - 1
-				if prev[top] != nil && bytes.Compare(prev[top], name) >= 0 {
+				// equal spellings are possible when AllowInvalidUTF8 mangles two distinct ill-formed
+				// keys to U+FFFD (and duplicates are allowed): their relative order is fixed by the
+				// Go keys, which this scan cannot see, so only a descent is an error
+				if prev[top] != nil && bytes.Compare(prev[top], name) > 0 {
 					return false
 				}
 				prev[top] = name
